@@ -475,4 +475,29 @@ Proof.
     + rewrite (ops_avoid _ _ _ _ mops_avoid_vdb H) in Px. discriminate Px.
     + rewrite (ops_avoid _ _ _ _ sops_avoid_vdb H) in Px. discriminate Px.
 Qed.
+
+(* where a member can come from ("only if" half of the membership characterisation) *)
+Definition sourced (k : bytes) : Prop :=
+  In k sel \/ In k (link_candidates t)
+  \/ (i_novdb i = false /\ vdb_names t (map p_dir (selected (i_pkgs i))) k)
+  \/ (i_emptydev i = false /\ (ops_name t dops k \/ In k (ext_names xl)))
+  \/ ops_name t mops k \/ ops_name t sops k \/ ops_name t uops k.
+Lemma m7_sourced k : mem k m7 = true -> sourced k.
+Proof. intros H. unfold sourced. destruct (m7_origin k H) as [A|[A|[A|[A|[A|A]]]]]; tauto. Qed.
+Lemma m9_sourced k : mem k m9 = true -> sourced k \/ k = root_path \/ exists k0, sourced k0 /\ In k (nrparents k0).
+Proof.
+  intros H. apply (run_ops_keys _ _ _ _ E9) in H as [H|H]; [|left; unfold sourced; tauto].
+  destruct (mem k m7) eqn:E7k; [left; now apply m7_sourced|].
+  destruct (missing_parent m7 k G7 E7k H) as [->|(k0 & Hk0 & Hin)]; [tauto|].
+  right; right. exists k0. split; [now apply m7_sourced|exact Hin].
+Qed.
+Theorem mf_sourced k : mem k mf = true -> sourced k \/ k = root_path \/ exists k0, sourced k0 /\ In k (nrparents k0).
+Proof.
+  intros H. destruct (mem k m9) eqn:E9k; [now apply m9_sourced|].
+  destruct (missing_parent m9 k G9 E9k H) as [->|(k0 & Hk0 & Hin)]; [tauto|].
+  right; right. destruct (m9_sourced k0 Hk0) as [S|[->|(k1 & S & Hin1)]].
+  - eauto.
+  - destruct Hin.
+  - exists k1. split; [exact S|]. eapply nrparents_trans; eauto.
+Qed.
 End Content.
